@@ -252,6 +252,13 @@ func PatchLinker(goRoot, goVersion, cacheDir, tempDir string) (string, func(), e
 		return outputLinkPath, unlock, nil
 	}
 
+	// Invalidate the version stamp before the cached linker gets overwritten.
+	// If we are interrupted while rebuilding it, a stamp left by an earlier build
+	// must not vouch for a missing, partial, or different binary next time.
+	if err := os.Remove(outputLinkPath + versionExt); err != nil && !os.IsNotExist(err) {
+		return "", nil, err
+	}
+
 	srcDir := filepath.Join(goRoot, "src")
 	workingDir := filepath.Join(tempDir, "linker-src")
 
